@@ -118,7 +118,7 @@ _add("C03", "the probe-rollback hook is registered only by the request that won 
 _add("C13", "the rule equality functions used to detect 'unchanged' are reflexive and cover every field, so a changed rule cannot be mistaken for the old one and stay in force.")
 _add("C14", "all unchanged rules are paired with their old objects before any old object is used as a statistic donor (two-pass builders; defect F21 fixed and guarded); no generator is invoked for an unchanged rule.")
 _add("C15", "no function acquires a read lock while (transitively) already holding the same RWMutex (recursive RLock deadlocks against a waiting writer).")
-_add("C17", "the index write is not deferred past the lines; retention removes the oldest files of the all-dates listing; no error-returning method of the writer answers nil on a path on which a call reported an error (defect F22 fixed and guarded).")
+_add("C17", "the index write is not deferred past the lines; retention removes the oldest files of the all-dates listing; no error-returning method of the writer answers nil on a path on which a call reported an error (defect F22 fixed and guarded); the searcher's cached index offset is used only with the index file it was taken from (defect F23 fixed and guarded).")
 _add("C18", "a Rename / Remove event re-arms the watch and reloads the file.")
 _add("C19", "a deferred closure that exits the entry does so on every path through the closure (also for non-error panic values).")
 _add("C20", "the node is marked recovered under no other condition than a nil error for a known address.")
